@@ -180,6 +180,12 @@ class DatasetSpec(object):
             elif self.notes.get('fortran') and getattr(arr, 'ndim', 1) == 2 and not name.startswith('pc_') and 'feature' not in name:
                 arr = np.asfortranarray(arr)        # column-major .npy files, as MATLAB exporters write them
             np.save(d / name, arr)
+            if self.notes.get('npy_symlink') and name in ('spike_templates.npy', 'spike_times.npy', 'templates.npy', 'amplitudes.npy'):
+                # the array lives in another folder; the dataset folder only links to it
+                import os
+                (d / '_store').mkdir(exist_ok=True)
+                os.replace(d / name, d / '_store' / name)
+                os.symlink(d / '_store' / name, d / name)
         dat_paths = []
         if self.raw is not None:
             parts = self.raw_parts or [self.raw.shape[0]]
